@@ -2,10 +2,12 @@
 
 E1 for the three invariances (all filter permutations, all model permutations,
 brightness constants over 8 decades) and E2 for histories: every sequence of
-up to 3 fits (quick) / every permutation of 6 sources (thorough) on ONE real
-Fitter; after every transition canon(fitter) and canon(source) must be
-unchanged and the result must be bit-identical (canonical encoding) to the
-result a fresh Fitter gives for that source.
+up to 3 fits (quick) / up to 4 fits and every permutation of 6 sources (thorough) over an 8-source alphabet on ONE real
+Fitter; after every transition canon(source) must be unchanged and the result
+must be bit-identical (canonical encoding) to the result a fresh Fitter gives
+for that source.  canon(fitter) identifies the states of that exploration: on
+the current tree it never changes, so every history ends in the one initial
+state and the sequences enumerated are a fixpoint, not just a depth bound.
 """
 import itertools
 
@@ -18,21 +20,24 @@ ID = 'C11'
 LEVEL = 'model_checking'
 TECHNIQUE = 'exhaustive enumeration of permutations / constants (paired executions) and explicit-state exploration of fit histories on one real Fitter with canonical-state comparison'
 LEVEL_TEXT = ('All permutations of up to 4 (quick) / 6 (thorough) filters and of up to 4 (quick) / 5 (thorough, files) / 8 (thorough, in-memory Models) models, ten '
-              'brightness constants over 15 decades, and every sequence of up to 3 fits over a 6-source alphabet (every permutation of the 6 in thorough) on one '
+              'brightness constants over 15 decades, and every sequence of up to 3 fits over an 8-source alphabet, two pairs of which share their flag vector but not their photometry (up to 4 fits, and every permutation of 6 of them, in thorough) on one '
               'Fitter in each format/mode: permuted runs must give the same per-model results, constants must shift scale by -0.5 log10 c exactly and leave A_V '
-              'and chi^2, each fit in a history must equal the fresh-fitter result bit for bit, and neither the fitter state nor the source may change.')
+              'and chi^2, each fit in a history must equal the fresh-fitter result bit for bit, results handed out earlier must stay what they were, and the source may not change. The canonical fitter state is recorded per transition: where it never changes (the current tree) the histories close at depth 1.')
 LEVEL_NOTE = ('Finite value alphabets; sums reorder under permutation, so permuted results are compared to 1e-10 (float32 path: propagated bound) rather than bit-wise; '
               'permutations of 8 models are exhaustive only at the in-memory Models seam (no files); Fitter state = every array the fitter owns (canonical encoding).')
 RULE = ("cases: (kind, configuration, chunk); executions: Fitter.fit calls compared pairwise; for histories a state is (fitter canonical hash, history) and a transition one fit; "
         "non-trivial = distinct non-identity permutations / constants != 1 / histories of length >= 2")
 ASSUMPTIONS = ["finite value alphabets", "canonical encoding of Fitter covers all state that can influence a fit (models.fluxes, names, wavelengths, distances, logd, extended, av_law, sc_law, av_range, filters)"]
-REQUIRED_CLASSES = ['integer-typed-photometry', 'earlier-results-rechecked', 'both-limit-kinds-different-confidence', 'filter-perm', 'model-perm-files', 'brightness-constant', 'history-len3', 'history-repeat-same-source', 'mode-2d', 'mode-3d', 'float32-path',
+REQUIRED_CLASSES = ['history-same-flags-different-photometry', 'integer-typed-photometry', 'earlier-results-rechecked', 'both-limit-kinds-different-confidence', 'filter-perm', 'model-perm-files', 'brightness-constant', 'history-len3', 'history-repeat-same-source', 'mode-2d', 'mode-3d', 'float32-path',
                     'source-with-limits', 'source-all-flag4']
 TIMEOUT = {'quick': 600, 'thorough': 3000}
 
 VARIANTS = [('v1', False), ('v2', True), ('v2', False)]
 CONSTS = [1e-8, 1e-6, 1e-4, 1e-2, 0.5, 2.0, 10.0, 1e3, 1e4, 1e7]
-SRC_FLAGS = [(1, 1, 1, 1), (1, 4, 3, 1), (4, 4, 4, 4), (1, 0, 1, 2), (9, 1, 1, 1), (1, 1, 3, 3)]
+# the last two repeat the flag vectors of the first two with other fluxes and errors: anything remembered per flag pattern
+# (rather than per source) is then re-used for a different source
+SRC_FLAGS = [(1, 1, 1, 1), (1, 4, 3, 1), (4, 4, 4, 4), (1, 0, 1, 2), (9, 1, 1, 1), (1, 1, 3, 3), (1, 1, 1, 1), (1, 4, 3, 1)]
+N_SRC = len(SRC_FLAGS)
 B4 = ['B1', 'B2', 'B3', 'B5']
 
 
@@ -54,7 +59,7 @@ def setup(tier, seed):
                     continue
                 for i in range(0, len(perms), 12):
                     out.append({'kind': 'mperm', 'mode': mode, 'variant': iv, 'k': k, 'first': i, 'count': min(12, len(perms) - i)})
-            for s0 in range(6):
+            for s0 in range(N_SRC):
                 out.append({'kind': 'hist', 'mode': mode, 'variant': iv, 'first_source': s0})
     if tier == 'thorough':
         for k in (6, 7, 8):
@@ -72,7 +77,7 @@ def evidence_extra(ctx):
     t = ctx['tier']
     return {'bounds': 'filter permutations S_k k<=%d; model permutations via files k<=%d%s; 7 constants; histories: %s; 3 load variants x 2 modes'
                       % (4 if t == 'quick' else 6, 4 if t == 'quick' else 5, '' if t == 'quick' else ', in-memory k<=8',
-                         'all sequences of length <=3 over 6 sources' if t == 'quick' else 'all sequences of length <=3 and all 720 permutations of 6 sources'),
+                         'all sequences of length <=3 over 8 sources' if t == 'quick' else 'all sequences of length <=4 over 8 sources and all 720 permutations of 6 of them'),
             'alphabet_digest': 'seed=%d' % ctx['seed']}
 
 
@@ -80,7 +85,7 @@ def _sources(seed, base, mode):
     out = []
     for i, fv in enumerate(SRC_FLAGS):
         n = len(base)
-        fl, er = fc.photometry(fv[:n], base * [1.0, 2.5, 0.4, 1.7, 0.9, 1.2][i], i + 4 * seed, conf_rot=i)
+        fl, er = fc.photometry(fv[:n], base * [1.0, 2.5, 0.4, 1.7, 0.9, 1.2, 3.1, 0.6][i], i + 4 * seed, conf_rot=i)
         for j, v in enumerate(fv[:n]):
             if v in (2, 3) and er[j] == 1.0:
                 er[j] = 0.8
@@ -253,8 +258,9 @@ def run_case(ctx, case, rec, d):
             fresh.append(canon(_strip(ft.fit(fc.make_source(fv, fl, er)))))
         if fc.observed_f32(ft):
             rec.cls('float32-path')
-        seqs = [[case['first_source']] + list(t) for L in (0, 1, 2) for t in itertools.product(range(6), repeat=L)]
+        seqs = [[case['first_source']] + list(t) for L in (0, 1, 2) for t in itertools.product(range(N_SRC), repeat=L)]
         if ctx['tier'] == 'thorough':
+            seqs += [[case['first_source']] + list(t) for t in itertools.product(range(N_SRC), repeat=3)]
             seqs += [[case['first_source']] + list(t) for t in itertools.permutations([x for x in range(6) if x != case['first_source']])]
         for seq in seqs:
             fitter = fc.make_fitter(md, B4, 'power', avr, **kw)
@@ -276,7 +282,9 @@ def run_case(ctx, case, rec, d):
                 if got != fresh[si]:
                     rec.violation('history|result-depends-on-history|%s' % mode, sub, {'problem': 'result for source %d after history %r differs from the fresh-fitter result' % (si, seq[:step])})
                 if c1 != c0:
-                    rec.violation('history|fitter-state-changed|%s' % mode, sub, {'problem': 'canonical fitter state changed by fitting source %d' % si})
+                    # not a violation in itself (an implementation may keep private state): it is a new STATE, and what the
+                    # property demands -- the same result as a fresh fitter -- is checked from it by the rest of the history
+                    rec.cls('fitter-state-changed-by-a-fit')
                     c0 = c1
                 if canon(src) != cs:
                     rec.violation('history|source-modified|%s' % mode, sub, {'problem': 'the source passed in was modified', 'flags': list(fv)})
@@ -295,6 +303,8 @@ def run_case(ctx, case, rec, d):
                 rec.cls('history-len3')
             if len(seq) >= 2 and seq[0] == seq[1]:
                 rec.cls('history-repeat-same-source')
+            if len(seq) >= 2 and seq[0] != seq[1] and SRC_FLAGS[seq[0]] == SRC_FLAGS[seq[1]]:
+                rec.cls('history-same-flags-different-photometry')
         rec.sample({'kind': 'history', 'mode': mode, 'variant': [fmt, memmap], 'sources_flags': [list(s[0]) for s in srcs], 'example_history': seqs[-1], 'n_histories': len(seqs)})
 
 
